@@ -29,9 +29,9 @@ func (c05) Assumptions() []string {
 func (c05) Batches(tier string, seed uint64) []core.Batch {
 	var b []core.Batch
 	b = append(b, core.Batch{Name: "pinned"})
-	b = append(b, spread("grammar", 8, tierN(tier, 1200, 12000))...)
-	b = append(b, spread("mutant", 8, tierN(tier, 2500, 25000))...)
-	b = append(b, spread("raw", 4, tierN(tier, 2500, 25000))...)
+	b = append(b, spread("grammar", 8, tierN(tier, 5000, 25000))...)
+	b = append(b, spread("mutant", 8, tierN(tier, 10000, 50000))...)
+	b = append(b, spread("raw", 4, tierN(tier, 10000, 50000))...)
 	b = append(b, spread("arch", 4, 0)...)
 	b = append(b, spread("exh", 16, 0)...)
 	return b
